@@ -88,8 +88,14 @@ impl Out {
 }
 
 /// Installs a silent panic hook: panics of the code under test are data, not noise.
+pub static LAST_PANIC: std::sync::Mutex<String> = std::sync::Mutex::new(String::new());
+
 pub fn quiet_panics() {
-    std::panic::set_hook(Box::new(|_| {}));
+    std::panic::set_hook(Box::new(|info| {
+        if let Ok(mut g) = LAST_PANIC.lock() {
+            *g = info.to_string();
+        }
+    }));
 }
 
 /// Runs `f`, turning a panic into `Err(message)`.
